@@ -298,6 +298,22 @@ func All() []Program {
 			"layouts/shell.vuego": `<html><head><title>{{ title }}</title></head><body><header><slot name="head" :n="1"></slot></header><ul><li v-for="k in rows"><slot name="head" :n="k"></slot></li></ul><div v-html="content"></div><template include="frame.vuego"></template><footer><slot name="foot">no foot</slot></footer>` + end + `</body></html>`,
 			"frame.vuego":         `<section><slot name="foot">frame-fallback</slot><slot name="nope">nope-fallback</slot></section>`,
 		}, Data: map[string]vals.V{"who": s("handWHO"), "rows": vals.List("[]any", vals.Int(2), vals.Int(3))}, Feat: []string{"layout", "front-matter", "slot", "handover"}},
+		// a full document with a doctype, rendered without any layout (the doctype is a node of
+		// its own in front of the document)
+		{Name: "doc-plain", Files: map[string]string{
+			"page.vuego": "<!DOCTYPE html>\n" + `<html lang="en"><head><title>{{ who }}</title><meta charset="utf-8"></head><body><p>{{ who }}</p><template include="c.vuego" :v="who"></template><ul><li v-for="r in rows">{{ r }}</li></ul>` + end + `</body></html>`,
+			"c.vuego":    `<template :required="v"><div><b>{{ v }}</b></div></template>`,
+		}, Data: map[string]vals.V{"who": s("docWHO"), "rows": list("a", "b")}, Feat: []string{"doctype", "document", "include", "required"}},
+		{Name: "fail-doc-required", Fails: true, Files: map[string]string{
+			"page.vuego": "<!DOCTYPE html>\n" + `<html><head><title>t</title></head><body><p>before</p><template include="c.vuego" a="1"></template></body></html>`,
+			"c.vuego":    `<template :required="a,zzz"><p>{{ a }}</p></template>`,
+		}, Feat: []string{"fail", "doctype", "required"}},
+		// v-once elements in a page that goes through a layout, also inside the slot templates
+		// the page hands to the layout
+		{Name: "layout-once", FileOnly: true, Files: map[string]string{
+			"page.vuego":          "---\nlayout: shell\ntitle: OnceTitle\n---\n" + `<template #head><style v-once>.h{}</style><b>{{ who }}</b></template><script v-once>var a = 1;</script><ul><li v-for="r in rows"><i v-once>once {{ who }}</i>{{ r }}</li></ul>`,
+			"layouts/shell.vuego": `<html><head><title>{{ title }}</title></head><body><header><slot name="head">no head</slot></header><style v-once>.l{}</style><main v-html="content"></main>` + end + `</body></html>`,
+		}, Data: map[string]vals.V{"who": s("lonceWHO"), "rows": list("r1", "r2")}, Feat: []string{"layout", "front-matter", "v-once", "slot", "handover"}},
 		// a registered stateful node processor (render-scoped state via New)
 		{Name: "proc-counter", Opts: []string{"counter"}, Files: map[string]string{
 			"page.vuego": `<section><p v-for="r in rows">{{ r }} {{ who }}</p><template include="c.vuego" :v="who"></template></section>` + end,
